@@ -20,6 +20,14 @@ def _prepare(unit_files, rel, old, new, count):
         shutil.copy(os.path.join(R.REPO, f), dst)
     p = os.path.join(d, rel)
     s = open(p).read()
+    if isinstance(old, list):       # several edits in one file: [(old, new), ..], each must occur exactly once
+        for o_, n_ in old:
+            if s.count(o_) != 1:
+                shutil.rmtree(d)
+                return None, 'pattern occurs %d times (expected 1): %s' % (s.count(o_), o_[:40])
+            s = s.replace(o_, n_)
+        open(p, 'w').write(s)
+        return d, None
     if s.count(old) < 1 or (count and s.count(old) != count):
         shutil.rmtree(d)
         return None, 'pattern occurs %d times (expected %s)' % (s.count(old), count or '>=1')
@@ -29,7 +37,8 @@ def _prepare(unit_files, rel, old, new, count):
 
 
 def run_one(builder, findings, unit_files, m):
-    name, rel, old, new = m[0], m[1], m[2], m[3]
+    name, rel, old = m[0], m[1], m[2]
+    new = m[3] if len(m) > 3 else None
     count = m[4] if len(m) > 4 else 1
     d, err = _prepare(unit_files, rel, old, new, count)
     if d is None:
